@@ -338,6 +338,8 @@ class Ctx:
         self.stop_on_failure = False
         self.prefix: list[int] = []
         self.exp_names: dict = {}  # persistent: E-constant name -> atom term
+        self._vars_cache: dict = {}
+        self._query_cache: dict = {}
         self._reset_run()
 
     # -- per-run state ---------------------------------------------------
@@ -381,14 +383,67 @@ class Ctx:
     def constraints(self):
         return self.assume + self.defs + self.path
 
+    def _vars_of(self, f):
+        """Names of the free constants of f (exp companions count as their
+        atom's variables, so a companion and its variable are never split)."""
+        i = f.get_id()
+        hit = self._vars_cache.get(i)
+        if hit is not None and hit[0].eq(f):
+            return hit[1]
+        out = set()
+        for t in _walk([f]):
+            if z3.is_app(t) and t.num_args() == 0 and t.decl().kind() == z3.Z3_OP_UNINTERPRETED:
+                nm = t.decl().name()
+                if nm == "PI" or nm.startswith("EXPC!"):
+                    continue
+                if nm.startswith("E!") and nm in self.exp_names:
+                    out |= self._vars_of(self.exp_names[nm])
+                    out.add(nm)
+                else:
+                    out.add(nm)
+        self._vars_cache[i] = (f, out)
+        return out
+
+    def relevant(self, extra):
+        """Cone of influence: the constraints that share variables
+        (transitively) with `extra`.  The dropped constraints share no
+        variable with the kept ones and are satisfiable on their own (the
+        current path is feasible by construction), so the verdict is exact in
+        both directions."""
+        cons = self.constraints()
+        if not extra or self.notes.get("no_slicing"):
+            return cons
+        seed = set()
+        for f in extra:
+            seed |= self._vars_of(f)
+        vs = [self._vars_of(f) for f in cons]
+        keep = [False] * len(cons)
+        changed = True
+        while changed:
+            changed = False
+            for k, v in enumerate(vs):
+                if not keep[k] and (not v or (v & seed)):
+                    keep[k] = True
+                    if not v <= seed:
+                        seed |= v
+                        changed = True
+        return [c for c, k in zip(cons, keep) if k]
+
     def check(self, extra=(), timeout_ms=None, links=False, feasibility=False):
-        fs = self.constraints() + list(extra)
+        fs = self.relevant(list(extra)) + list(extra)
+        key = (tuple(sorted(f.get_id() for f in fs)), links, feasibility)
+        hit = self._query_cache.get(key)
+        if hit is not None and hit[2] != "sat":
+            self.stats.cache_hits = getattr(self.stats, "cache_hits", 0) + 1
+            return hit[2], None
         t0 = time.time()
         res, model = solve(fs, self, timeout_ms or self.timeout_ms, links=links, feasibility=feasibility)
         self.stats.queries += 1
         self.stats.solver_time += time.time() - t0
         if res == "unknown":
             self.stats.unknown += 1
+        if res == "unsat":
+            self._query_cache[key] = (fs, None, res)
         return res, model
 
     # -- decisions --------------------------------------------------------
@@ -927,7 +982,9 @@ def lemma_instances(fs, ctx: Ctx, links=False):
                 new.append((a1 < a2) == (e1 < e2))
                 new.append((a1 == a2) == (e1 == e2))
         # comparisons between log-space linear forms -> monomial comparisons
-        if ctx.exp_atoms:
+        # (only for the comparisons of the query itself, not for those the
+        # lemmas introduce)
+        if ctx.exp_atoms and rounds == 1:
             for t in subs:
                 if not z3.is_app(t) or t.decl().kind() not in _CMP:
                     continue
